@@ -189,14 +189,18 @@ func (idx *KVIndex) RemoveDoc(docID string) error {
 			return fmt.Errorf("failed to unmarshal document: %v", err)
 		}
 		for _, entryKey := range doc.Entries {
+			field, ttype, term, _ := EntryKeyParse(entryKey)
+			termKey := TermKey(field, ttype, term)
+			//count the term while the entry is still there: a recount must include it,
+			//because one is subtracted for it below
+			count, cerr := idx.termGetCount(tx, field, ttype, term)
+
 			err = tx.Delete(entryKey)
 			if err != nil {
 				return fmt.Errorf("failed to delete entry %s: %v", entryKey, err)
 			}
 
-			field, ttype, term, _ := EntryKeyParse(entryKey)
-			termKey := TermKey(field, ttype, term)
-			if count, err := idx.termGetCount(tx, field, ttype, term); err == nil {
+			if cerr == nil {
 				if count > 0 {
 					count = count - 1
 				}
@@ -215,7 +219,7 @@ func (idx *KVIndex) RemoveDoc(docID string) error {
 					}
 				}
 			} else {
-				return fmt.Errorf("Termcount Error: %s", err)
+				return fmt.Errorf("Termcount Error: %s", cerr)
 			}
 		}
 
